@@ -95,13 +95,17 @@ def answer (line : String) : String :=
       let ts := (field fs "T").splitOn "," |>.filter (· ≠ "")
       match ts.mapM parseTok with
       | none => "bad-token"
-      | some toks =>
+      | some toks0 =>
+        -- lexical constraint on occurrence indicators: `T * * 2` is `T* * 2` (both the model and the reference
+        -- parser read the normalised token list; the real parser reads the text of the original one)
+        let toks := normalize V.rows toks0
         let m := modelParse V.rows toks
         let s := specParse V.w3c V.ep V.rows toks
         let ms := match m with | .ok t => showTree V.rows t | .error e => showErr e
         let ss := match s with | some t => showTree V.rows t | none => "ERR"
         let trig : List String :=
           (if trigF04b V.rows V.impl V.ep s toks then ["F04b"] else []) ++
+          (if trigF04j V.rows toks then ["F04j"] else []) ++
           (match s with
            | some t =>
              (if v == 10 && trigF04a V.rows t then ["F04a"] else []) ++
